@@ -167,6 +167,8 @@ def gen_stack(rng):
             w = rng.choice(["framestack", "normalize_dict", "extract_vec", "extract_img", "monitor", "checknan"])
         else:
             w = rng.choice(["monitor", "checknan"])
+        if w == "transpose" and "framestack" in wrappers:
+            w = "monitor"  # a stacked image is no longer a channel-last image that VecTransposeImage accepts
         wrappers.append(w)
         if w == "framestack" and cur == "image_hwc":
             cur = "image_chw"  # stacked along the last axis: no longer a channel-last image for VecTransposeImage
